@@ -74,6 +74,8 @@ def flat_prog(
     debug_idx = set(range(max(len(setup_idx), n - n_debug), n)) if n_debug else set()
     for i in range(n):
         fn = names[i]
+        if reuse and i > 0 and i in setup_idx and (i - 1) in setup_idx and body[i - 1]["mark"] and chance(draw, 0.3):
+            fn = body[i - 1]["fn"]  # ONE setup function used at two call sites (two nodes that may be in flight together)
         if reuse and i > 0 and i not in setup_idx and i not in debug_idx and draw(st.integers(0, 3)) == 0:
             cands = [j for j in range(i) if j not in setup_idx and not fns[body[j]["fn"]].get("debug") and body[j]["mark"]]
             if cands:
